@@ -241,7 +241,8 @@ def draw_multi_params(rng, descs: list[dict]) -> dict:
 
 def draw_rotator_params(rng, model_params: dict, *, lazy: bool | None = None) -> dict:
     nm = int(model_params["n_modes"])
-    p = {"n_modes": rng.randint(2, max(2, nm)), "power": rng.choice([1, 1, 2, 3])}
+    # rotating all retained modes is both the common use and what makes the rotation re-rank modes
+    p = {"n_modes": max(2, nm) if rng.random() < 0.6 else rng.randint(2, max(2, nm)), "power": rng.choice([1, 1, 2, 3])}
     compute = rng.random() < 0.7
     if lazy is True:
         compute = False
